@@ -615,6 +615,11 @@ def _vertex_current_flow_betweenness(int N, double Is, double It,
     ndarray[FIELD_t, ndim=2] admittance, ndarray[FIELD_t, ndim=2] R,
     int i):
 
+    # the C routine indexes both matrices as N x N
+    if not (admittance.shape[0] == N and admittance.shape[1] == N and
+            R.shape[0] == N and R.shape[1] == N):
+        raise ValueError("admittance and R must be N x N matrices")
+
     return _vertex_current_flow_betweenness_fast(N, Is, It,
         <FIELD_t*> cnp.PyArray_DATA(admittance),
         <FIELD_t*> cnp.PyArray_DATA(R), i)
@@ -623,6 +628,11 @@ def _vertex_current_flow_betweenness(int N, double Is, double It,
 def _edge_current_flow_betweenness(int N, double Is, double It,
     ndarray[FIELD_t, ndim=2] admittance,
     ndarray[FIELD_t, ndim=2] R,):
+
+    # the C routine indexes both matrices as N x N
+    if not (admittance.shape[0] == N and admittance.shape[1] == N and
+            R.shape[0] == N and R.shape[1] == N):
+        raise ValueError("admittance and R must be N x N matrices")
 
     # alloc output
     cdef ndarray[FIELD_t, ndim=2, mode='c'] ECFB = \
